@@ -761,7 +761,7 @@ class C11(Check):
         for i, sc in enumerate(schemas):
             rec.wrap_validate(sc, i)
         for t in texts:
-            rec.tid(t)                                       # text i has id i
+            rec.tid(t)
         steps = []
         reg = {int(k): v for k, v in case["co"].items()}
 
@@ -838,6 +838,7 @@ class C11(Check):
             obs += st["log"]
         tabs = rec.tables()
         trace = {"rec": rec, "tabs": tabs, "steps": steps, "schemas": schemas, "texts": texts,
+                 "text_ids": [rec.texts[t] for t in texts],      # ids are by content: equal texts share one id
                  "npat": len(rec.pats), "nrep": len(rec.reps), "CH": CH, "S": S}
         if rec.inconsistent:
             trace["harness_error"] = "oracle answered one key in two ways: %r" % (rec.inconsistent,)
@@ -868,7 +869,7 @@ class C11(Check):
             elif op[0] == "reset":
                 ops.append([3])
             else:
-                ops.append([0 if op[0] == "fold" else 1, op[1], op[2]] + list(op[3] or []))
+                ops.append([0 if op[0] == "fold" else 1, trace["text_ids"][op[1]], op[2]] + list(op[3] or []))
         reg0 = [[int(k), CO_KINDS.index(v)] for k, v in sorted(case["co"].items())]
         return "(mkCase %s %s %s %s %s)" % (czl(cfg), czl(case["ctor"] or []), czll(reg0), czll(ops), tab)
 
